@@ -64,9 +64,9 @@ var props = map[string]propCfg{
 	"C11": {QuickRuns: 60000, Chunk: 1500, ThoroughS: 900, Level: "exploration", StallS: 60},
 	"C12": {QuickRuns: 6000, Chunk: 200, ThoroughS: 900, Level: "exploration", StallS: 120, Race: true},
 	"C13": {QuickRuns: 640, Chunk: 20, ThoroughS: 900, Level: "fault_enumeration", StallS: 120},
-	"C14": {QuickRuns: 4000, Chunk: 200, ThoroughS: 600, Level: "other", StallS: 60},
+	"C14": {QuickRuns: 24000, Chunk: 500, ThoroughS: 600, Level: "other", StallS: 60},
 	"C16": {QuickRuns: 6000, Chunk: 250, ThoroughS: 900, Level: "exploration", StallS: 60, Gomaxprocs: []int{1, 4, 16}, Digests: true},
-	"C18": {QuickRuns: 1500, Chunk: 50, ThoroughS: 900, Level: "fault_enumeration", StallS: 120, NeedsBclBin: true},
+	"C18": {QuickRuns: 6000, Chunk: 100, ThoroughS: 900, Level: "fault_enumeration", StallS: 120, NeedsBclBin: true},
 	"C19": {QuickRuns: 12000, Chunk: 400, ThoroughS: 900, Level: "exploration", StallS: 60},
 }
 
@@ -198,7 +198,7 @@ func (r *runner) workerCmd(env ...string) *exec.Cmd {
 	cmd := exec.Command(r.bin, "-test.run", "^TestWorker$", "-test.timeout", "0", "-test.count", "1")
 	cmd.Env = append(os.Environ(),
 		"VERIF_PROP="+r.prop, "VERIF_TIER="+r.tier, "VERIF_SEED="+strconv.FormatUint(r.seed, 10),
-		"VERIF_BCL_BIN="+filepath.Join(buildDir, "bcl"), "VERIF_DIR="+verifDir,
+		"VERIF_BCL_BIN="+filepath.Join(buildDir, "bcl"), "VERIF_DIR="+verifDir, "VERIF_TMP="+r.tmp,
 		"GORACE=halt_on_error=0 history_size=2")
 	cmd.Env = append(cmd.Env, r.extraEnv...)
 	cmd.Env = append(cmd.Env, env...)
